@@ -20,6 +20,15 @@ REG = {
  "C05": dict(cat="exploration", technique="runtime monitoring: before/after differential oracle on sub-trees and table entries + extent monitor for syntax diagnostics under single-token damage",
    text="For generated valid programs with 2-8 global declarations, one token of one declaration is deleted, or a token of the SPL alphabet (without proc/type) is inserted/substituted; the real analysis of the damaged text is compared with the undamaged run: every other declaration's sub-tree (ranges relative to its first token, doc strings included) and table entry must be unchanged, every lex/parse-class diagnostic must lie inside the damaged declaration's extent, and hover on the other declarations' names must still answer (sampled over LSP).",
    note="Trusted: extents come from the generator; replacement identifiers are fresh (no redeclaration interactions); semantic diagnostics elsewhere are unconstrained, as the property says.", ref="5/C05"),
+ "C01": dict(cat="exploration", technique="runtime monitoring: metamorphic oracle (fresh analysis of the same build) after every step of generated edit histories, at library and LSP level; tree invariants",
+   text="Edit histories of 1-20 steps (1-4 changes per notification, each relative to its predecessor) are generated on the derivation of well-typed and ill-typed programs, so that source and result of every edit are syntactically valid; after every step the real AnalyzedSource::update result (tokens, syntax tree with attached diagnostics, symbol table, errors()) is compared by derived equality with AnalyzedSource::new of the same text, tree well-formedness invariants are checked, and at the LSP boundary the last publishDiagnostics and a request panel (semantic tokens, folding, formatting, hover/definition/references/typeDefinition/completion/signatureHelp at sampled positions) of the edited document are compared with a twin opened fresh. Step k+1 always starts from the updated state of step k.",
+   note="Decided only on the valid<->valid edit sub-space stated in the evidence (coverage.sub_space); histories through syntactically broken states are replayed from committed witnesses only. Trusted: AnalyzedSource::new as reference.", ref="5/C01"),
+ "C08": dict(cat="exploration", technique="runtime monitoring: reference LSP text model vs server text read through hook H1 after every notification; position round trips",
+   text="Random open/change histories (ranged edits incl. zero-width, whole-line, multi-line, overshooting column/line; batches of 1-4 changes; full-text replacements) over documents with 1-4-byte characters, CR, LF, CRLF and empty lines are sent to the built server; after every notification the server's text (`$/verif/text`) must equal the text of an independent LSP position model, and identifier ranges reported by prepareRename must start at the client's position, cover the identifier, and address the same token when sent back (prepareRename, hover).",
+   note="Trusted: harness/lspmodel.py as reading of the LSP 3.17 position rules. Positions inside surrogate pairs are not generated.", ref="5/C08"),
+ "C12": dict(cat="exploration", technique="runtime monitoring: scoping oracle by construction of generated programs vs the four go-to requests of the built server",
+   text="For generated well-typed programs (any declaration order, doc comments, equal local names in several procedures, locals hiding global procedures, all layouts) every sampled identifier occurrence is queried at its first/middle/last column with declaration, definition, typeDefinition and implementation; the answer must be exactly the name-token range of the binding known by construction (or null for predefined entities, int, anonymous array types, non-identifiers, white space, positions beyond the text); an error response or a dead server is a violation.",
+   note="Trusted: bindings/types from harness/gen.py; LSP positions from harness/layout.py (UTF-16).", ref="5/C12"),
 }
 NOT_YET = "check not yet built in this session (work in progress; see DESIGN.md section 5 for the planned monitor)"
 
